@@ -67,6 +67,8 @@ MODES = [
     Mode("two-T1", ["-T1"], "c", ["f", "g"]),      # single-threaded coder object shared by consecutive files
     Mode("three-T1-keep", ["-T1", "-k"], "c", ["f", "g", "f2"], keep=True, tiers=("thorough",)) if False else Mode("d-two-T1", ["-d", "-T1"], "d", ["f", "g"]),
     Mode("files", ["--files=list"], "c", ["f", "g"], listfile=True),
+    Mode("two-v", ["-v"], "c", ["f", "g"]),        # progress reporting: its signal blocking must be balanced for every file, also a failed one
+    Mode("d-two-v", ["-dv"], "d", ["f", "g"]),
     Mode("nosync", ["--no-sync"], "c", ["f"], sync=False),
     Mode("T1", ["-T1"], "c", ["f"]),
     Mode("T4", ["-T4"], "c", ["f"]),
@@ -604,6 +606,18 @@ def _run(ck, ctx, tier):
                                 (b == "err" and base.calls[k2 - 1].name == "sigaction"):
                             continue
                         jobs.append((MODE[name], "20k", "%d:%s,%d:%s" % (k1, a, k2, b)))
+
+    # both tiers: with -v, an error on any call of the first file followed by SIGTERM before any later call of the second file
+    for name in ("two-v", "d-two-v"):
+        base = bases.get((name, "8k"))
+        if base is None:
+            continue
+        for c1 in base.calls:
+            if c1.idx != 0 or c1.name == "sigaction":
+                continue
+            for c2 in base.calls:
+                if c2.ord > c1.ord and c2.idx == 1:
+                    jobs.append((MODE[name], "8k", "%d:err,%d:sig:15" % (c1.ord, c2.ord)))
 
     def work(job):
         m, inp, faults = job
